@@ -130,6 +130,9 @@ func nodeFingerprint(n *store.Node) string {
 func c10PoolSnapshots(ctx *Ctx, i int, rng *rand.Rand) {
 	drv := i % 2
 	cfg := worldCfg{Drv: drv, Price: "1000", IntervalNs: 60e9, Settle: true, Min: strp("-100000000")}
+	if rng.Intn(2) == 0 { // withdrawals with a fee (a fee function that works in place, as the shipped binary's does)
+		cfg.Fee, cfg.WMin = "10", strp("100")
+	}
 	w := newWorld(cfg)
 	defer w.Close()
 	w.aliasAll()
@@ -180,9 +183,15 @@ func c10PoolSnapshots(ctx *Ctx, i int, rng *rand.Rand) {
 				c := b
 				hold("the store's balance of "+n, &c, k)
 			}
-			if b, err := w.bstore.GetAccountBalance(store.Account(walletOf("w1"))); err == nil {
-				c := b
-				hold("the balance of wallet w1", &c, k)
+			for _, wl := range []string{"w1", "w2"} {
+				if b, err := w.bstore.GetAccountBalance(store.Account(walletOf(wl))); err == nil {
+					c := b
+					hold("the balance of wallet "+wl, &c, k)
+				}
+				if b, err := w.st.GetAccountBalance(store.Account(walletOf(wl))); err == nil {
+					c := b
+					hold("the store's balance of wallet "+wl, &c, k)
+				}
 			}
 			if nd, err := w.st.GetNode(store.NodeID(nodeIDOf(n))); err == nil {
 				hn = append(hn, heldNode{"the node record of " + n, nd, nodeFingerprint(nd), k})
